@@ -45,9 +45,11 @@ PROPS = {
         quick=NATIVE_Q, thorough=NATIVE_T,
         floors={"value.ts_vmin": 100, "value.ts_vargmax": 100, "value.ts_vrank[pct=1,rev=1]": 100, "value.ts_vzscore": 50,
                 "value.ts_vminmaxnorm": 50, "spy.rescans_observed": 50, "state.extreme_expired": 50,
-                "state.extreme_expired_newest_null": 5, "state.all_null_window": 20, "state.tied_extreme": 50},
+                "state.extreme_expired_newest_null": 5, "state.all_null_window": 20, "state.tied_extreme": 50,
+                "state.constant_inexact_window_after_interrupted_run": 20},
         rule="sweep (len 1..N x window 1..len+2 x min_periods {None,0..w} x 10 null patterns) + random (len<=90) + long monotone/plateau "
-             "histories; value classes emphasise tiny alphabets, monotone runs, plateaus; inputs Vec, SpyVecFast (rescans observable), "
+             "histories; value classes emphasise tiny alphabets, monotone runs, plateaus, interrupted plateaus of non-dyadic floats "
+             "(c, d, c, c, c: zero spread reached with inexact running sums); inputs Vec, SpyVecFast (rescans observable), "
              "SpyVec/VecDeque/OptIter (default driver body), int/float/Option element types; every output position compared exactly "
              "(min,max,arg,rank) or within the DESIGN 5.1 bound (zscore) / 2ulp (minmaxnorm) with a brute-force window evaluation. "
              "distinct = (function, type combo, len bucket, window, min_periods, path, value class/null pattern)",
